@@ -416,6 +416,88 @@ def sched_wrap(scheduler_cls):
     scheduler_cls._verif_wrapped = True
 
 
+def make_fuzz_scheduler(cfg):
+    """A scheduling policy that makes random but well-formed decisions (C10's contract: existing pool, a strategy of the
+    task that fits some worker of that pool when empty, time >= now): the simulator properties hold for EVERY scheduler,
+    so an adversarial one reaches the re-queue / retry / re-time / unschedule / cancel paths the bundled policies
+    rarely take."""
+    import time as _time
+    from schedulers import BaseScheduler
+    from workload import Placement, Placements, BranchPredictionPolicy
+
+    class FuzzScheduler(BaseScheduler):
+        def __init__(self, _flags=None):
+            super().__init__(preemptive=False, runtime=EventTime(0, EventTime.Unit.US),
+                             lookahead=EventTime(cfg.get("lookahead", 0), EventTime.Unit.US),
+                             enforce_deadlines=False, policy=BranchPredictionPolicy.RANDOM,
+                             retract_schedules=bool(cfg.get("retract", False)),
+                             release_taskgraphs=bool(cfg.get("release_taskgraphs", False)), _flags=_flags)
+            self._rng = random.Random(cfg.get("seed", 0))
+
+        def schedule(self, sim_time, workload, worker_pools):
+            rng = self._rng
+            tasks = workload.get_schedulable_tasks(sim_time, self.lookahead, self.preemptive, self.retract_schedules,
+                                                   worker_pools, self.policy, self.branch_prediction_accuracy,
+                                                   self.release_taskgraphs)
+            placements = []
+            now = us(sim_time)
+            for task in tasks:
+                if task.state in (TaskState.RUNNING, TaskState.COMPLETED, TaskState.CANCELLED):
+                    continue
+                r = rng.random()
+                if r < cfg.get("p_cancel", 0.03):
+                    placements.append(Placement.create_task_cancellation(task))
+                    continue
+                if r < cfg.get("p_cancel", 0.03) + cfg.get("p_unplaced", 0.15):
+                    placements.append(Placement.create_task_placement(task))
+                    continue
+                options = []
+                for strat in task.available_execution_strategies:
+                    for pool in worker_pools.worker_pools:
+                        for w in pool.workers:
+                            tot = {}
+                            for res, q in w.resources.resources:
+                                tot[res.name] = tot.get(res.name, 0) + q + w.resources.get_allocated_quantity(res) * 0
+                            need = {}
+                            for res, q in strat.resources.resources:
+                                need[res.name] = need.get(res.name, 0) + q
+                            from workload import Resource
+                            if all(w.resources.get_total_quantity(Resource(name=n, _id="any")) >= q for n, q in need.items()):
+                                options.append((strat, pool))
+                                break
+                if not options:
+                    placements.append(Placement.create_task_placement(task))
+                    continue
+                strat, pool = rng.choice(options)
+                rel = us(task.release_time)
+                base = max(now, rel if rel is not None and rel >= 0 else now)
+                if rng.random() < cfg.get("p_future", 0.4):
+                    base += rng.choice([1, 2, 3, 5, 10, 25])
+                placements.append(Placement.create_task_placement(
+                    task=task, placement_time=EventTime(base, EventTime.Unit.US), worker_pool_id=pool.id,
+                    execution_strategy=strat))
+            return Placements(runtime=EventTime(0, EventTime.Unit.US), true_runtime=EventTime(0, EventTime.Unit.US),
+                              placements=placements)
+
+    return FuzzScheduler
+
+
+def run_with_fuzz_scheduler(world):
+    """main.main() with the scheduler replaced by the fuzzing policy (same loaders, same Simulator construction)."""
+    from data import WorkerLoader, WorkloadLoader
+    random.seed(FLAGS.random_seed)
+    workload_loader = WorkloadLoader(path=FLAGS.workload_profile_path, _flags=FLAGS)
+    cls = make_fuzz_scheduler(world["fuzz"])
+    sched_wrap(cls)
+    scheduler = cls(_flags=FLAGS)
+    worker_loader = WorkerLoader(worker_profile_path=FLAGS.worker_profile_path, _flags=FLAGS)
+    simulator = Simulator(worker_pools=worker_loader.get_worker_pools(), scheduler=scheduler,
+                          workload_loader=workload_loader,
+                          loop_timeout=EventTime(FLAGS.loop_timeout, EventTime.Unit.US),
+                          scheduler_frequency=EventTime(FLAGS.scheduler_frequency, EventTime.Unit.US), _flags=FLAGS)
+    simulator.simulate()
+
+
 def alarm(signum, frame):
     raise WallClock("wall-clock limit")
 
@@ -449,7 +531,10 @@ def run_world(world, tmpdir):
     signal.signal(signal.SIGALRM, alarm)
     signal.alarm(int(world.get("wall_limit", 120)))
     try:
-        erdos_main.main([])
+        if world.get("fuzz"):
+            run_with_fuzz_scheduler(world)
+        else:
+            erdos_main.main([])
     except Livelock as e:
         status, err = "livelock", str(e)
     except WallClock as e:
